@@ -2,7 +2,7 @@
 import ast
 import re
 
-from ..astutil import format_template, table_lookup, catches_everything, dotted, effective, handler_names, method_call
+from ..astutil import is_noise, format_template, table_lookup, catches_everything, dotted, effective, handler_names, method_call
 from ..cfg import canon_test, cfg_of, fact_key, norm, walk_own
 from ..consteval import Scope, fold, fold_in
 from ..mutate import B, M
@@ -384,6 +384,25 @@ def check(ctx):
         any(method_call(c, 'call') and norm(c.func.value) == 'self.connection_failed' for s in tr[0].handlers[0].body for c in walk_own(s)) and \
         not any(isinstance(x, ast.Raise) for s in tr[0].handlers[0].body for x in walk_own(s))
     ctx.inst('R5', ol, 'exception-is-connection-failed', ok, 'an exception from the driver lookup becomes connection_failed, nothing escapes')
+    # nothing that depends on the form of the URI runs outside that try: before it the URI is only stored and announced (a split /
+    # unpacking / index on the string raises for a malformed URI and escapes open_link)
+    uri_p = ol.params[1]
+    pre = ol.node.body[:ol.node.body.index(tr[0])] if tr and tr[0] in ol.node.body else []
+    risky = []
+    for s_ in pre:
+        if is_noise(s_):
+            continue
+        for x_ in walk_own(s_):
+            uses_uri = any(isinstance(y_, ast.Name) and y_.id == uri_p for y_ in ast.walk(x_))
+            if not uses_uri:
+                continue
+            if isinstance(x_, ast.Call) and isinstance(x_.func, ast.Attribute) and isinstance(x_.func.value, ast.Name) and x_.func.value.id == uri_p:
+                risky.append(norm(x_)[:50])              # a string method of the URI
+            elif isinstance(x_, ast.Subscript) and isinstance(x_.value, ast.Name) and x_.value.id == uri_p:
+                risky.append(norm(x_)[:50])
+            elif isinstance(x_, ast.Assign) and isinstance(x_.targets[0], (ast.Tuple, ast.List)):
+                risky.append(norm(x_)[:50])              # unpacking of something derived from the URI
+    ctx.inst('R5', ol, 'uri-parsed-only-inside-try', bool(tr) and not risky, 'before the try the URI is stored and announced, not taken apart; found %s' % risky)
 
 
 VARIANTS = [
